@@ -30,6 +30,11 @@ class T:
     def contains(self, kind) -> bool:
         return self.kind == kind or any(c.contains(kind) for c in self.children())
 
+    def heap_depth(self) -> int:
+        """nesting depth of heap buffers (string = 1, list<string> = 2, ...)"""
+        d = max([c.heap_depth() for c in self.children()] or [0])
+        return d + 1 if self.kind in ("list", "string") else d
+
 
 class Prim(T):
     kind = "prim"
@@ -233,6 +238,9 @@ class World:
 
     def uses(self, kind):
         return any(t.contains(kind) for t in self.types())
+
+    def heap_depth(self):
+        return max([t.heap_depth() for t in self.types()] or [0])
 
     def wit_text(self):
         defs, seen = [], set()
